@@ -211,6 +211,15 @@ impl<'a> Interp<'a> {
             sdk_msgs.push(m);
             model_msgs.push(mm);
         }
+        // the SDK refuses a batch whose payloads exceed 10 MB (MAX_PAYLOAD_SIZE) or whose headers exceed 100 kB in
+        // total before anything is sent: such a batch is not "a send" of the properties' domain - not issued
+        let payload_total: u64 = sdk_msgs.iter().map(|m| m.payload.len() as u64).sum();
+        let headers_total: u64 = sdk_msgs.iter().map(|m| m.headers.as_ref().map(|h| h.iter().map(|(k, v)| 4 + k.as_str().len() as u64 + 1 + 4 + v.value.len() as u64).sum::<u64>()).unwrap_or(0)).sum();
+        if payload_total > 10_000_000 || headers_total > 100_000 {
+            self.out.label("send-over-sdk-batch-limit-not-issued");
+            self.serial -= specs.len() as u64;
+            return Ok(());
+        }
         let (partitioning, fixed_pid, bad) = match target {
             Target::Part(sel) => {
                 let pid = self.pid_of(*sel);
